@@ -141,6 +141,9 @@ impl Number {
         if !exp.dimless() {
             return Err("Exponent must be dimensionless".to_string());
         }
+        if exp.value.to_f64().is_nan() {
+            return Err("Exponent is not a number".to_string());
+        }
         if exp.value.abs() >= Numeric::from(1 << 31) {
             return Err("Exponent is too large".to_string());
         }
@@ -171,6 +174,9 @@ impl Number {
         if !exp.dimless() {
             return Err("Right-hand to << must be dimensionless".to_string());
         }
+        if exp.value.to_f64().is_nan() {
+            return Err("Right-hand to << is not a number".to_string());
+        }
         if exp.value.abs() >= Numeric::from(1 << 31) {
             return Err("Right-hand to << is too large".to_string());
         }
@@ -194,6 +200,9 @@ impl Number {
     pub fn shr(&self, exp: &Number) -> Result<Number, String> {
         if !exp.dimless() {
             return Err("Right-hand to >> must be dimensionless".to_string());
+        }
+        if exp.value.to_f64().is_nan() {
+            return Err("Right-hand to >> is not a number".to_string());
         }
         if exp.value.abs() >= Numeric::from(1 << 31) {
             return Err("Right-hand to >> is too large".to_string());
